@@ -3,9 +3,9 @@ CONSTANTS
   Overlays <- ShippedOverlays
   PrefixOf <- ShippedPrefixOf
   Authenticated <- ShippedAuthenticated
-  Keys = {"h1", "h2", "h3", "rcv", "att", "att2", "kx", "ky"}
+  Keys = {"h1", "h2", "h3", "rcv", "att", "att2", "kx", "ky", "c0", "c1", "c2", "c3"}
   Honest = {"h1", "h2", "h3", "rcv"}
-  Attacker = {"att", "att2"}
+  Attacker = {"att", "att2", "c0", "c1", "c2", "c3"}
   MsgIds <- ShippedMsgIds
   Prefixes <- ShippedPrefixes
   Bodies = {"b0", "b1", "b2"}
@@ -19,6 +19,9 @@ CONSTANTS
   MaxAcq = 16
   EarlyBook = FALSE
   TrustSource = FALSE
+  EarlyNote = FALSE
+  StaleKeys = FALSE
+  WithNotes = TRUE
 INVARIANT TraceAccepted
 INVARIANT TypeOK
 INVARIANT AuthOnly
@@ -28,3 +31,5 @@ INVARIANT HonestAttribution
 INVARIANT Unforgeable
 INVARIANT BookLegit
 INVARIANT BookNoKeyEmpty
+INVARIANT NotesLegit
+INVARIANT KeyResolution
